@@ -16,7 +16,7 @@ RULE = (
     "return the singular class; every property that yields a slot object carries the index of exactly one slotN property of the same "
     "class and of the same slot class; (B) through the real compiler: for every structure and every logic-type property 'X(d0).P' "
     "must emit 'l r? d0 <LogicType P>' and 'Xs.P.Maximum' must emit 'lb r? <hash> <LogicType P> Maximum' whose hash token evaluates to "
-    "the CRC-32, and (for On / Setting / PrefabHash and every 7th other property) the named form 'Xs[\"nm\"].P.Sum' must emit 'lbn r? <hash> HASH(\"nm\") P Sum'; for every slot property and every slot type 'X(d0).S.T' must emit 'ls r? d0 <index> <LogicSlotType T>' (all "
+    "the CRC-32, and (for On / Setting / PrefabHash and every 7th other property) the named form 'Xs[\"nm\"].P.Sum' must emit 'lbn r? <hash> HASH(\"nm\") P Sum'; for every slot property and every slot type 'X(d0).S.T' must emit 'ls r? d0 <index> <LogicSlotType T>', 'Xs.S.T.Maximum' must emit 'lbs r? <hash> <index> T Maximum' and 'Xs[\"nm\"].S.T.Sum' must emit 'lbns r? <hash> HASH(\"nm\") <index> T Sum' (all "
     "properties, batched 40 per compiled program, verbose and compact); (C) every public function of intrinsics.py: called directly with "
     "distinct sentinel arguments and compiled from source -- opcode == own name (modulo a trailing '_'), operands == arguments in "
     "order, result register present iff the instruction table gives the opcode an output register, opcode listed in "
@@ -173,6 +173,11 @@ def check_compiled(case):
         else:
             lines.append(f"db.Setting = {sname}(d0).{sprop}.{prop}")
             expect.append(("ls", sname, prop, sidx))
+            # the same slot through the plural form: all devices of the type, and the devices of one name
+            lines.append(f"db.Setting = {pname}.{sprop}.{prop}.Maximum")
+            expect.append(("lbs", sname, prop, sidx))
+            lines.append(f"db.Setting = {pname}[\"nm\"].{sprop}.{prop}.Sum")
+            expect.append(("lbns", sname, prop, sidx))
     src = "\n".join(lines) + "\n"
     sing, _, _ = tables.structures()
     n = 0
@@ -205,6 +210,14 @@ def check_compiled(case):
                 h = float(HASHv(sing[sname]._prefab_name))
                 if len(t) != 6 or _value(t[2], "v") != h or _value(t[3], "v") != float(HASHv("nm")) or _value(t[4], "t") != float(LT[pm] if pm in LT.__members__ else -1) or _value(t[5], "bm") != float(LBM["Sum"]):
                     why = f"expected 'lbn r? <{int(h)}> HASH(\"nm\") {pm} Sum'"
+            elif op == "lbs":
+                h = float(HASHv(sing[sname]._prefab_name))
+                if len(t) != 6 or _value(t[2], "v") != h or _value(t[3], "v") != float(sidx) or _value(t[4], "st") != float(LST[pm] if pm in LST.__members__ else -1) or _value(t[5], "bm") != float(LBM["Maximum"]):
+                    why = f"expected 'lbs r? <{int(h)}> {sidx} {pm} Maximum'"
+            elif op == "lbns":
+                h = float(HASHv(sing[sname]._prefab_name))
+                if len(t) != 7 or _value(t[2], "v") != h or _value(t[3], "v") != float(HASHv("nm")) or _value(t[4], "v") != float(sidx) or _value(t[5], "st") != float(LST[pm] if pm in LST.__members__ else -1) or _value(t[6], "bm") != float(LBM["Sum"]):
+                    why = f"expected 'lbns r? <{int(h)}> HASH(\"nm\") {sidx} {pm} Sum'"
             else:
                 if len(t) != 5 or t[2] != "d0" or _value(t[3], "v") != float(sidx) or _value(t[4], "st") != float(LST[pm] if pm in LST.__members__ else -1):
                     why = f"expected 'ls r? d0 {sidx} {pm}'"
